@@ -528,7 +528,7 @@ class SMC(Sampler):
         # New covariance
         cov = 2 * np.diag(weighted_var(params, w))
 
-        if not np.all(np.isfinite(cov)):
+        if not np.all(np.isfinite(cov)) or np.any(np.diag(cov) < 0):
             logger.warning("Could not estimate the sample covariance. This is often "
                            "caused by majority of the sample weights becoming zero."
                            "Falling back to using unit covariance.")
